@@ -18,11 +18,11 @@ RULE = ("pieces described abstractly as (bar plan, per-track note lists, trailin
 ASSUMPTIONS = ["signature labels are not compared (6/8 and 3/4 render alike), only bar lengths",
                "output channel numbers are not compared; track index is",
                "the velocity-bin value is looked up in the tokeniser's own table by the harness's linear search"]
-REQUIRED_FLAGS = ["configuration_history", "rest_crosses_bar_line", "signature_change", "multi_track", "same_pitch_same_tick_two_tracks", "empty_track",
+REQUIRED_FLAGS = ["track_channel_not_zero", "configuration_history", "rest_crosses_bar_line", "signature_change", "multi_track", "same_pitch_same_tick_two_tracks", "empty_track",
                   "unequal_track_lengths", "note_overhangs_last_bar_line", "last_onset_on_bar_line_without_cap",
                   "trailing_empty_bar", "velocity_binned", "unfused_all", "no_running_values", "non_default_note_values"]
 
-SIG = {"44": (4, 4), "34": (3, 4), "24": (2, 4), "68": (6, 8), "58": (5, 8), "22": (2, 2)}
+SIG = {"44": (4, 4), "34": (3, 4), "24": (2, 4), "68": (6, 8), "58": (5, 8), "22": (2, 2), "38": (3, 8)}   # a 36-tick note fills a 3/8 bar
 FL = list(itertools.product((True, False), repeat=4))   # running, fuse_track, fuse_value, fuse_velocity
 
 
@@ -246,9 +246,13 @@ def check_case(case, ctx):
         if s is not None:
             prev = SIG[s]
     seqs = []
+    # every track is a single-channel sequence, but not necessarily on channel 0: the channel follows from the piece
+    chan = [0, 5, 9, 3][(len(plan) + capv + sum(len(t) for t in tracks)) % 4]
+    if chan:
+        R.flags.append("track_channel_not_zero")
     for i, tr in enumerate(tracks):
-        seqs.append(lib.seq_abs([(o, d, p, 0, v) for o, d, p, v in tr], events if i == 0 else [],
-                                D if (capv and i == 0) else None))
+        seqs.append(lib.seq_abs([(o, d, p, (chan + 2 * i) % 16, v) for o, d, p, v in tr], events if i == 0 else [],
+                                D if (capv and i == 0) else None, ch_events=(chan + 2 * i) % 16))
     # expected bar lines: the piece's own grid, extended by its last signature, up to the bar containing D
     used = [s for b, s in enumerate(sigs) if b == 0 or st[b] < D]
     lines, cur = [], 0
